@@ -7,3 +7,50 @@ Theorem C02_canonical_order : forall (H : Type) rows (lay targets : list (node H
   ascK (sort_coords rows (proof_coords lay targets)).
 Proof. intros. apply sortK_asc. Qed.
 Print Assumptions C02_canonical_order.
+
+From Utreexo Require Import Base.Hash Model.Verify Spec.Oracle Proofs.CalcSound Proofs.CalcComplete
+     Proofs.StumpUpdate.
+From Coq Require Import Sorted.
+
+(** "Every live leaf set is provable": the reference produces a proof for every list of live leaves *)
+Theorem C02_live_sets_provable :
+  forall (H : Type) (HO : ops H), ops_ok HO ->
+  forall (s : slots H) (hs : list H),
+    (forall h, In h hs -> In (Some h) s) -> exp_prove HO (mk_ctx HO s) hs <> None.
+Proof. exact exp_prove_live. Qed.
+Print Assumptions C02_live_sets_provable.
+
+(** "...and verify everywhere" (roots-only verifier, as repaired): the canonical proof of any list
+    of distinct live leaves is ACCEPTED by the mirror of [Stump.Verify], for forests of every size
+    up to 2^63 leaves, and the root indexes it returns are those of the trees holding a target. *)
+Theorem C02_canonical_proof_verifies :
+  forall (H : Type) (HO : ops H) (s : slots H) (hs : list H) (ts : list N) (pf : list H),
+  ops_ok HO ->
+  (forall a b, NZ HO (op_hash2 HO a b)) ->
+  (forall h, In (Some h) s -> NZ HO h) ->
+  N.of_nat (length s) <= 2 ^ 63 ->
+  NoDup hs ->
+  exp_prove HO (mk_ctx HO s) hs = Some (ts, pf) ->
+  exists rows,
+    Verify HO true (the_stump (mk_ctx HO s)) hs ts pf
+      = Ok (map (rootIndexForRow (N.of_nat (length s))) rows) /\
+    StronglySorted N.lt rows /\
+    (forall r, In r rows <->
+       exists h x, In h hs /\ find_leaf HO (layout HO s) h = Some x /\ r = N.of_nat (ntree x)).
+Proof. exact @verify_complete. Qed.
+Print Assumptions C02_canonical_proof_verifies.
+
+(** the same, stated with the oracle's expectation used by the correspondence check *)
+Theorem C02_canonical_proof_root_indexes :
+  forall (H : Type) (HO : ops H) (s : slots H) (hs : list H) (ts : list N) (pf : list H),
+  ops_ok HO ->
+  (forall a b, NZ HO (op_hash2 HO a b)) ->
+  (forall h, In (Some h) s -> NZ HO h) ->
+  N.of_nat (length s) <= 2 ^ 63 ->
+  NoDup hs ->
+  exp_prove HO (mk_ctx HO s) hs = Some (ts, pf) ->
+  exists idx,
+    Verify HO true (the_stump (mk_ctx HO s)) hs ts pf = Ok idx /\
+    exp_root_indexes HO (mk_ctx HO s) hs = Some idx.
+Proof. exact @verify_complete_indexes. Qed.
+Print Assumptions C02_canonical_proof_root_indexes.
